@@ -386,6 +386,82 @@ Example pderiv_pscale_exact_float_refuted :
     is_pos_zero (nth 0 d 1%float) /\ is_neg_zero (nth 0 (pscale (A := AF) dp (-1)%float) 1%float).
 Proof. exact pderiv_pscale_sign_refuted. Qed.
 
+(* the sum and the difference of two NON-EMPTY integer-valued operands never contain a negative zero (coefficient i is
+   (0 + p_i) + q_i resp. (0 + p_i) - q_i and 0 + (-0) = +0), whatever the signs of the zeros in the operands: the results
+   are the bit patterns determined by the integer results *)
+Theorem padd_psub_no_negative_zero_float : forall (p q : list PrimFloat.float) (zs ws : list Z),
+  Forall2 ExactW p zs -> Forall2 ExactW q ws -> p <> [] -> q <> [] ->
+  (Forall (fun c : Z => (Z.abs c < 2 ^ 53)%Z) (padd (A := AZ) zs ws) -> Forall2 Exact (padd (A := AF) p q) (padd (A := AZ) zs ws)) /\
+  (Forall (fun c : Z => (Z.abs c < 2 ^ 53)%Z) (psub (A := AZ) zs ws) -> Forall2 Exact (psub (A := AF) p q) (psub (A := AZ) zs ws)).
+Proof. exact padd_psub_no_negzero_float_lemma. Qed.
+Check padd_psub_no_negative_zero_float : forall (p q : list PrimFloat.float) (zs ws : list Z),
+  Forall2 ExactW p zs -> Forall2 ExactW q ws -> p <> [] -> q <> [] ->
+  (Forall (fun c : Z => (Z.abs c < 2 ^ 53)%Z) (padd (A := AZ) zs ws) -> Forall2 Exact (padd (A := AF) p q) (padd (A := AZ) zs ws)) /\
+  (Forall (fun c : Z => (Z.abs c < 2 ^ 53)%Z) (psub (A := AZ) zs ws) -> Forall2 Exact (psub (A := AF) p q) (psub (A := AZ) zs ws)).
+Print Assumptions padd_psub_no_negative_zero_float.
+Example padd_psub_no_negative_zero_float_nonvacuous :   (* (-0) + (-0) as constant polynomials is +0 *)
+  Forall2 ExactW [-0]%float [0]%Z /\ [-0]%float <> [] /\ Forall (fun c : Z => (Z.abs c < 2 ^ 53)%Z) (padd (A := AZ) [0]%Z [0]%Z) /\
+  is_pos_zero (nth 0 (padd (A := AF) [-0]%float [-0]%float) 1%float) /\ is_neg_zero (-0)%float.
+Proof.
+  split; [repeat constructor; exactw|]. split; [discriminate|]. split; [fits|]. split; vm_compute; reflexivity.
+Qed.
+
+(* derivative_at: the n-th derivative evaluated at an integer point, when every derivative of order 1..n and the Horner sum fit *)
+Theorem pderiv_at_exact_float : forall (p : list PrimFloat.float) (zs dz : list Z) (x : PrimFloat.float) (xz : Z) (n : nat),
+  Forall2 ExactW p zs -> ExactW x xz -> pderiv_n (A := AZ) zs n = Ok dz -> dz <> [] ->
+  (forall k dk, (1 <= k <= n)%nat -> pderiv_n (A := AZ) zs k = Ok dk -> Forall (fun c : Z => (Z.abs c < 2 ^ 53)%Z) dk) ->
+  eval_fits dz xz ->
+  exists r, pderiv_at (A := AF) p x n = Ok r /\ ExactW r (horner (A := AZ) dz xz) /\
+            pderiv_at (A := AZ) zs xz n = Ok (horner (A := AZ) dz xz).
+Proof. exact pderiv_at_exact_float_lemma. Qed.
+Check pderiv_at_exact_float : forall (p : list PrimFloat.float) (zs dz : list Z) (x : PrimFloat.float) (xz : Z) (n : nat),
+  Forall2 ExactW p zs -> ExactW x xz -> pderiv_n (A := AZ) zs n = Ok dz -> dz <> [] ->
+  (forall k dk, (1 <= k <= n)%nat -> pderiv_n (A := AZ) zs k = Ok dk -> Forall (fun c : Z => (Z.abs c < 2 ^ 53)%Z) dk) ->
+  eval_fits dz xz ->
+  exists r, pderiv_at (A := AF) p x n = Ok r /\ ExactW r (horner (A := AZ) dz xz) /\
+            pderiv_at (A := AZ) zs xz n = Ok (horner (A := AZ) dz xz).
+Print Assumptions pderiv_at_exact_float.
+Example pderiv_at_exact_float_nonvacuous :   (* (3 - 2x + 5x^3)'' = 30x at x = 3: 90 *)
+  Forall2 ExactW exP exPz /\ ExactW 3%float 3%Z /\ pderiv_n (A := AZ) exPz 2 = Ok [0; 30]%Z /\ [0; 30]%Z <> [] /\
+  eval_fits [0; 30]%Z 3%Z /\ pderiv_at (A := AF) exP 3%float 2 = Ok 90%float.
+Proof.
+  split; [exact exP_exactW|]. split; [exact ex_x_exact|]. split; [vm_compute; reflexivity|]. split; [discriminate|].
+  split; [unfold eval_fits; vm_compute; reflexivity|]. vm_compute; reflexivity.
+Qed.
+
+(* both additive evaluation laws, bit for bit, from ONE condition on the inputs:
+   (al + be) (1 + |x| + ... + |x|^(max (len p) (len q) - 1)) < 2^53  with |a_i| <= al, |b_j| <= be *)
+Theorem peval_padd_psub_exact_float_input_bounds : forall (p q : list PrimFloat.float) (zs ws : list Z) (x : PrimFloat.float) (xz al be : Z),
+  Forall2 Exact p zs -> Forall2 Exact q ws -> ExactW x xz -> p <> [] -> q <> [] ->
+  (0 <= al)%Z -> (0 <= be)%Z ->
+  Forall (fun a : Z => (Z.abs a <= al)%Z) zs -> Forall (fun b : Z => (Z.abs b <= be)%Z) ws ->
+  ((al + be) * geom (Nat.max (length zs) (length ws)) (Z.abs xz) < 2 ^ 53)%Z ->
+  exists rp rq, peval (A := AF) p x = Ok rp /\ peval (A := AF) q x = Ok rq /\
+    peval (A := AF) (padd (A := AF) p q) x = Ok (rp + rq)%float /\
+    peval (A := AF) (psub (A := AF) p q) x = Ok (rp - rq)%float /\
+    Exact rp (horner (A := AZ) zs xz) /\ Exact rq (horner (A := AZ) ws xz).
+Proof. exact peval_padd_psub_exact_float_bounds_lemma. Qed.
+Check peval_padd_psub_exact_float_input_bounds : forall (p q : list PrimFloat.float) (zs ws : list Z) (x : PrimFloat.float) (xz al be : Z),
+  Forall2 Exact p zs -> Forall2 Exact q ws -> ExactW x xz -> p <> [] -> q <> [] ->
+  (0 <= al)%Z -> (0 <= be)%Z ->
+  Forall (fun a : Z => (Z.abs a <= al)%Z) zs -> Forall (fun b : Z => (Z.abs b <= be)%Z) ws ->
+  ((al + be) * geom (Nat.max (length zs) (length ws)) (Z.abs xz) < 2 ^ 53)%Z ->
+  exists rp rq, peval (A := AF) p x = Ok rp /\ peval (A := AF) q x = Ok rq /\
+    peval (A := AF) (padd (A := AF) p q) x = Ok (rp + rq)%float /\
+    peval (A := AF) (psub (A := AF) p q) x = Ok (rp - rq)%float /\
+    Exact rp (horner (A := AZ) zs xz) /\ Exact rq (horner (A := AZ) ws xz).
+Print Assumptions peval_padd_psub_exact_float_input_bounds.
+Example peval_padd_psub_exact_float_input_bounds_nonvacuous :
+  Forall2 Exact exP exPz /\ Forall2 Exact exQ exQz /\ ExactW 3%float 3%Z /\ exP <> [] /\ exQ <> [] /\
+  (0 <= 5)%Z /\ (0 <= 7)%Z /\
+  Forall (fun a : Z => (Z.abs a <= 5)%Z) exPz /\ Forall (fun b : Z => (Z.abs b <= 7)%Z) exQz /\
+  ((5 + 7) * geom (Nat.max (length exPz) (length exQz)) (Z.abs 3) < 2 ^ 53)%Z.
+Proof.
+  split; [exact exP_exact|]. split; [exact exQ_exact|]. split; [exact ex_x_exact|]. split; [discriminate|].
+  split; [discriminate|]. split; [lia|]. split; [lia|]. split; [repeat constructor; cbn; lia|].
+  split; [repeat constructor; cbn; lia|]. vm_compute; reflexivity.
+Qed.
+
 (* Complex<f64> with Gaussian-integer coefficients (CExactW: both components integer-valued).  Size of a Gaussian integer:
    cn1 g = |re g| + |im g|; the complex product is 4 real products and 2 sums, each bounded by cn1 g * cn1 h *)
 Theorem cpoly_ops_exact_float : forall (p q : list (cplx AF)) (zs ws : list (cplx AZ)),
